@@ -26,7 +26,8 @@ def heavy(case):
 
 def gen_cases(tier, seed):
     for c in F.gen(tier, letters='AHOGSNKW'):
-        yield c
+        if not F.GLOBS[c['glob']].get('prior'):
+            yield c
     from mc.checks import c04_threads
     for c in c04_threads.gen_cases(tier, seed):
         yield c
